@@ -7,6 +7,7 @@ from .. import paths
 from ..core import FUNC, call_attr, calls_in, const, dotted, is_const, kwarg, norm, slice_parts, text, walk_local
 
 EXPLANATION = [
+    'C17.cid-domain: the channel-table numbering rule of C09.cid-domain: a peer-chosen channel identifier in a signalling request is tested against the table keyed by peer identifiers, so a request re-using the source CID of an open channel is refused instead of overwriting its entry.',
     'C17.smp-sessions: the SMP session rules of C13.session-lifecycle (nothing is processed after the end of a session; a new Pairing Request replaces a finished session, the old one being ended before the new one is registered; keys are derived only after the key exchange): whatever SMP commands a peer sends, a later well-formed pairing on the same connection works.',
     'C17.dlc-sink: DLC.on_uih_frame calls its consumer inside try/except Exception, so hostile data that makes the consumer raise cannot desynchronise the RFCOMM credit ledgers.',
     'C17.ack-bounded: an acknowledgement received on an ERTM channel is accepted only if it covers no more frames than are actually outstanding (same rule as C08.window), so a forged ReqSeq cannot move the acknowledged sequence number past what was sent and wedge the transmitter.',
@@ -15,6 +16,8 @@ EXPLANATION = [
     'C17.loop-contained: in the Hands-Free unsolicited-result loop an exception raised while handling one result code is caught inside the loop body (only the termination marker leaves it): a malformed result code does not end the handling of those that follow.',
     'C17.live-entry: in Multiplexer.on_mcc_pn the command branch stores a new DLC under the peer-chosen DLCI only on a path where the existing entry for that DLCI was examined and is not an open DLC; the response branch creates one only while this side is opening.',
     'C17.validate-first: in the AVCTP, AVDTP and AVRCP reassemblers no access that can raise on a short fragment (pdu[k], struct.unpack_from) is executed after a state write unless a length test on the fragment was passed before that write: a truncated fragment cannot leave half-updated assembler state.',
+    'C17.cmd-complete: HCI_Command_Complete_Event.from_parameters contains a failure to parse the return parameters (falls back to the raw bytes), so a Command Complete with truncated parameters still concludes the pending command instead of being dropped by Host.on_packet.',
+    'C17.format-safe: the __str__ / __repr__ / to_string methods of the PDU classes of the protocol modules read only attributes that the class, a base class or the module defines (received PDUs are formatted for the debug log before dispatch, so a formatter that raises keeps the PDU from being handled).',
     'C17.lost-write: in the AVCTP, AVDTP and AVRCP reassemblers no path through on_pdu records a state field for the fragment being handled, then calls the self-healing reset() and carries on with the wiped value (the start fragment of a well-formed message after an abandoned one keeps its packet count).',
     'C17.feed-contained: every site that pushes received bytes into the HCI packet parser is inside try/except InvalidPacketError that lets the transport continue (the handler sits inside the receive loop, or the try is itself inside a further loop: a handler outside the loop ends reception), or is a named plain event-loop callback where the escaping exception is only logged.',
     'C17.parser-reset: the push parser consumes what it needs, resets after emission and before raising on an unknown type byte, and contains sink exceptions (same rule as C02.push-parser).',
@@ -785,6 +788,94 @@ def validate_first(ctx, rule='C17.validate-first'):
     R.check(n == len(LOST_WRITE_SITES), rule, 'reassemblers (validate first)', f'{n} reassemblers analysed', f'only {n} found')
 
 
+def cmd_complete(ctx, rule='C17.cmd-complete'):
+    """A Command Complete event always reaches the host's command machinery: a failure to parse its return parameters is
+    contained in the event factory (raw bytes kept), because an event that raises in the parser is dropped by
+    Host.on_packet and the pending command -- and the command semaphore -- would wait for ever."""
+    R, p = ctx.r, ctx.p
+    fn = p.find('bumble.hci.HCI_Command_Complete_Event.from_parameters')
+    if fn is None:
+        R.bad(rule, 'bumble.hci.HCI_Command_Complete_Event.from_parameters', 'anchor missing')
+        return
+    calls = [c for c in calls_in(fn) if call_attr(c) == 'parse_return_parameters']
+    ok = bool(calls)
+    for c in calls:
+        cont = False
+        a, prev = getattr(c, '_parent', None), c
+        while a is not None and a is not fn:
+            if isinstance(a, ast.Try) and any(prev is s_ or any(prev is x for x in ast.walk(s_)) for s_ in a.body):
+                for h in a.handlers:
+                    names = {text(t).split('.')[-1] for t in (h.type.elts if isinstance(h.type, ast.Tuple) else [h.type])} if h.type is not None else {'<bare>'}
+                    sets = any(isinstance(x, ast.Assign) and dotted(x.targets[0]) == 'event.return_parameters' for x in ast.walk(h))
+                    if names & {'Exception', 'BaseException', '<bare>'} and sets and not any(isinstance(x, ast.Raise) for x in ast.walk(h)):
+                        cont = True
+            prev, a = a, getattr(a, '_parent', None)
+        ok = ok and cont
+    R.check(ok, rule, 'bumble.hci.HCI_Command_Complete_Event.from_parameters | return parameters', 'parse_return_parameters is inside try/except Exception that falls back to the raw bytes',
+            'truncated return parameters make the event factory raise: Host.on_packet drops the event, the pending command never completes and every later command waits for the semaphore', p.loc(fn))
+    hp = p.find('bumble.host.Host.on_packet')
+    if hp is not None:
+        tr = [t for t in ast.walk(hp) if isinstance(t, ast.Try) and any(call_attr(c) == 'from_bytes' for s_ in t.body for c in ast.walk(s_) if isinstance(c, ast.Call))]
+        R.check(len(tr) == 1 and any(isinstance(x, ast.Return) for h in tr[0].handlers for x in ast.walk(h)), rule, 'bumble.host.Host.on_packet | parse failures dropped', 'a packet that cannot be parsed is logged and dropped (which is why the factory above must not raise for a Command Complete)', 'Host.on_packet changed its handling of unparseable packets', p.loc(hp))
+
+
+FORMAT_EXEMPT = {
+    ('bumble.sdp.SDP_PDU', 'pdu'): 'unreachable: SDP_PDU.from_bytes raises for PDU ids without a class, so every instance has a field table and the branch reading self.pdu never runs',
+}
+
+
+def format_safe(ctx, rule='C17.format-safe'):
+    """Received PDUs are formatted for the debug log before they are dispatched (f-strings are evaluated whatever the log
+    level): the formatting methods only read attributes that exist, or a PDU of an unknown kind raises before it is handled."""
+    R, p = ctx.r, ctx.p
+    mods = ('bumble.smp', 'bumble.att', 'bumble.l2cap', 'bumble.sdp', 'bumble.avdtp', 'bumble.avctp', 'bumble.rfcomm', 'bumble.hci', 'bumble.avc', 'bumble.avrcp')
+
+    def mro(ci, seen):
+        if ci in seen:
+            return seen
+        seen.append(ci)
+        for b in ci.bases:
+            bi = p.classes.get(b)
+            if bi is not None:
+                mro(bi, seen)
+        return seen
+    n = 0
+    for q, ci in sorted(p.classes.items()):
+        if not any(q.startswith(m + '.') for m in mods):
+            continue
+        fm = [(mn, ci.methods[mn]) for mn in ('__str__', '__repr__', 'to_string') if mn in ci.methods]
+        if not fm:
+            continue
+        chain = mro(ci, [])
+        known_bases = all(any(k == b or k.endswith('.' + b.split('.')[-1]) for k in p.classes) or b.split('.')[-1] in ('object', 'Exception', 'IntEnum', 'IntFlag', 'Enum', 'Generic', 'Protocol', 'ABC') or '[' in b
+                          for c in chain for b in [text(x) for x in c.node.bases])
+        if not known_bases or any(('Enum' in text(x) or 'Flag' in text(x)) for c_ in chain for x in c_.node.bases):
+            continue  # enum members get value / name from the enum machinery
+        defined = set()
+        dynamic = False
+        for c in chain:
+            defined |= set(c.methods) | set(c.assigns) | set(c.annots) | set(c.nested)
+            for m in c.methods.values():
+                for x in ast.walk(m):
+                    if isinstance(x, ast.Attribute) and isinstance(x.ctx, ast.Store) and dotted(x.value) in ('self', 'cls'):
+                        defined.add(x.attr)
+                    if isinstance(x, ast.Call) and dotted(x.func) in ('setattr', 'vars') or (isinstance(x, ast.Attribute) and x.attr == '__dict__' and isinstance(x.ctx, ast.Store)):
+                        dynamic = True
+                    if isinstance(x, ast.Call) and (dotted(x.func) or '').endswith('__dict__.update'):
+                        dynamic = True
+            if '__getattr__' in c.methods:
+                dynamic = True
+        if dynamic:
+            continue
+        assigned_elsewhere = {x.attr for x in ast.walk(ci.module.tree) if isinstance(x, ast.Attribute) and isinstance(x.ctx, ast.Store)}
+        n += 1
+        bad = sorted({x.attr for mn, m in fm for x in ast.walk(m) if isinstance(x, ast.Attribute) and isinstance(x.ctx, ast.Load) and dotted(x.value) == 'self' and x.attr not in defined and x.attr not in assigned_elsewhere
+                      and not x.attr.startswith('__') and (q, x.attr) not in FORMAT_EXEMPT})
+        R.check(not bad, rule, q, 'its formatting methods read only attributes the class (or a base, or the module) defines',
+                f'{q}.__str__ reads `self.{bad[0]}`, which nothing defines: formatting such an object raises AttributeError, and received PDUs are formatted for the debug log before they are dispatched' if bad else '', p.loc(fm[0][1]))
+    R.check(n >= 30, rule, 'protocol modules | classes with formatting methods', f'{n} classes examined', f'only {n} classes examined')
+
+
 def depth_balance(ctx, rule='C17.depth-balance'):
     """The SDP parser's nesting counter returns to its entry value on every normal exit of the recursive step."""
     R, p = ctx.r, ctx.p
@@ -836,13 +927,21 @@ def smp_sessions(ctx):
     c13.session_lifecycle(ctx, rule='C17.smp-sessions')
 
 
+def cid_domain_rule(ctx):
+    from . import c09
+    c09.cid_domain(ctx, rule='C17.cid-domain')
+
+
 RULES = [
+    ('C17.cid-domain', cid_domain_rule),
     ('C17.smp-sessions', smp_sessions),
     ('C17.dlc-sink', dlc_sink),
     ('C17.ack-bounded', ack_bounded),
     ('C17.depth-balance', depth_balance),
     ('C17.feed-contained', feed_contained),
     ('C17.lost-write', lost_write),
+    ('C17.format-safe', format_safe),
+    ('C17.cmd-complete', cmd_complete),
     ('C17.validate-first', validate_first),
     ('C17.live-entry', live_entry),
     ('C17.loop-contained', loop_contained),
